@@ -162,7 +162,8 @@ def bounded(tier, seed, R):
               'x {yml, json, pkl} x {cycles off, on}: (a) every saved cell has exactly the original value after load (same '
               'process, fresh thread, fresh process); (b) original and loaded model agree on a post-load set_value / evaluate '
               'history; (c) saving again leaves the text byte-identical, saving the loaded model reproduces the same cell map; '
-              '(d) cycles settings, workbook file name, source hash and extra_data survive; (e) the stored hash is that of the '
+              '(d) cycles settings, workbook file name, source hash and extra_data survive; (f) a save in one format between two saves '
+              'in pickle + text does not leave a stale pickle; (e) the stored hash is that of the '
               'workbook the model was compiled from even when the file on disk has changed since')
     wbs = _workbooks(rnd, (len(CONTENT_POOL) + 2) // 3 + 6 if not thorough else 60, W)
     R.bound = f'{len(wbs)} workbooks x 3 formats x 2 modes; fresh process for a third of them'
@@ -281,6 +282,28 @@ def bounded(tier, seed, R):
                                 w['differs'] = repr(bad)[:400]
                             return not bad
                         R.guard('bounded/fresh_process_values', fresh, w)
+        # (f) saving in one format does not leave another format stale
+        for first, second in ((('pkl', 'yml'), ('yml',)), (('pkl', 'json'), ('json',)), (('pkl', 'yml'), ('pkl', 'yml'))):
+            wb = wbs[-1]
+            w = {'workbook': repr(wb), 'first_save': first, 'second_save': second}
+
+            def stale_case():
+                comp = W.compile_mem(wb)
+                for c in wb.cells():
+                    comp.evaluate(W.addr(c))
+                base = os.path.join(tmp, 'stale_' + '_'.join(first + second) + '_model')
+                comp.to_file(base, file_types=first)
+                c0 = [c for c in wb.inputs if isinstance(wb.inputs[c], (int, float))][0]
+                comp.set_value(W.addr(c0), 4242)
+                want = {c: comp.evaluate(W.addr(c)) for c in wb.cells()}
+                comp.to_file(base, file_types=second)
+                comp.to_file(base, file_types=first)
+                ok = True
+                for ext in first:
+                    loaded = ExcelCompiler.from_file(base + '.' + ext)
+                    ok = ok and all(exact(loaded.evaluate(W.addr(c)), want[c]) for c in wb.cells())
+                return ok
+            R.guard('bounded/no_stale_format_after_partial_save', stale_case, w)
         # (e) the hash stored is the hash of the compiled source
         for fmt in ('yml', 'json', 'pkl'):
             wb = wbs[-1]
